@@ -240,6 +240,30 @@ Definition kstep_key_replaced_under_fk (s : schema) (a : action) (rest : list ac
   | _ => false
   end.
 
+(* K17 (C06-reference-added-later seen from the database): a foreign key is created (CreateTable is hoisted to the
+   front of the plan; AddConstraint of an alphabetically earlier table) while its target table, target column or
+   the key over exactly the referenced columns is only established by a later action of the same plan *)
+Definition same_cols (a b : list string) : bool :=
+  (Nat.eqb (List.length a) (List.length b) && forallb (fun x => mem_str x b) a && forallb (fun x => mem_str x a) b)%bool.
+Definition target_not_ready (s : schema) (self : string) (self_keys : list table_constraint) (k : table_constraint) : bool :=
+  match k with
+  | CForeignKey _ _ rt rcols _ _ =>
+      let keys := if String.eqb rt self then self_keys else table_constraints s rt in
+      if (negb (String.eqb rt self) && negb (has_table rt s))%bool then true
+      else negb (existsb (fun x => match x with
+                                   | CPrimaryKey _ cols | CUnique _ cols => same_cols cols rcols
+                                   | _ => false
+                                   end) keys)
+  | _ => false
+  end.
+Definition kstep_reference_before_key (s : schema) (a : action) (rest : list action) : bool :=
+  match a with
+  | CreateTable t cols ks =>
+      let nk := normalized_constraints t cols ks in existsb (target_not_ready s t nk) nk
+  | AddConstraint t k => target_not_ready s t (table_constraints s t) k
+  | _ => false
+  end.
+
 (* K14: RenameTable / RenameColumn and foreign keys: apply.rs:310-353 renames inside ref_columns of the table's OWN
    foreign keys (which name columns of another table) and never touches the foreign keys of other tables that
    reference the renamed column *)
@@ -347,7 +371,8 @@ Definition classes : list kclass :=
   ; mkClass "known_C03_autoinc_by_alter" no_base kstep_autoinc_by_alter [] [DkColAuto]
   ; mkClass "known_C03_inline_promoted" no_base kstep_inline_promoted [1; 8] index_con_diffs
   ; mkClass "known_C03_rename_fk_refs" kbase_dangling_fk kstep_rename_fk_refs [] [DkConDiffers]
-  ; mkClass "known_C03_key_replaced_under_fk" no_base kstep_key_replaced_under_fk [11] [] ].
+  ; mkClass "known_C03_key_replaced_under_fk" no_base kstep_key_replaced_under_fk [11] []
+  ; mkClass "known_C03_reference_before_key" no_base kstep_reference_before_key [13; 3; 4] [] ].
 Definition class_names : list string := map kc_name classes.
 
 Definition mem_nat (n : nat) (l : list nat) : bool := existsb (Nat.eqb n) l.
@@ -390,6 +415,7 @@ Definition known_C03_autoinc_by_alter := known_by "known_C03_autoinc_by_alter".
 Definition known_C03_inline_promoted := known_by "known_C03_inline_promoted".
 Definition known_C03_rename_fk_refs := known_by "known_C03_rename_fk_refs".
 Definition known_C03_key_replaced_under_fk := known_by "known_C03_key_replaced_under_fk".
+Definition known_C03_reference_before_key := known_by "known_C03_reference_before_key".
 
 (* rows for the driver: every case that is not OOk, with its attribution *)
 Fixpoint report_from (i : nat) (cs : list pg_case)
